@@ -9,10 +9,12 @@ import xdeps as xd
 
 def mk_table(case):
     names = case["idx"]
-    data = {"name": np.array(names, dtype=object) if names else np.array([], dtype=object)}
+    # "idx_dtype": "object" (default) | "unicode" (a fixed-width numpy string column, kept as such)
+    uni = case.get("idx_dtype") == "unicode" and len(names) > 0
+    data = {"name": np.array(names) if uni else (np.array(names, dtype=object) if names else np.array([], dtype=object))}
     for k, v in case["cols"]:
         data[k] = np.array(v, dtype=np.int64)
-    return xd.Table(data, col_names=["name"] + [k for k, _ in case["cols"]], index="name")
+    return xd.Table(data, col_names=["name"] + [k for k, _ in case["cols"]], index="name", cast_strings=not uni)
 
 
 def mk_row(r):
